@@ -170,7 +170,32 @@ type c16Layer struct {
 	beh           string
 }
 
+// the error a failing interceptor returns (chosen per case): a status, or the bare / wrapped context error or
+// plain error that deadline, draining and load-shedding interceptors return
 var errC16Fail = status.Error(codes.PermissionDenied, "interceptor says no")
+
+var c16FailErrs = []error{
+	status.Error(codes.PermissionDenied, "interceptor says no"),
+	status.Error(codes.PermissionDenied, "interceptor says no"),
+	status.Error(codes.ResourceExhausted, "shedding load"),
+	context.DeadlineExceeded,
+	context.Canceled,
+	fmt.Errorf("interceptor gave up: %w", context.DeadlineExceeded),
+	errors.New("interceptor failed without a status"),
+}
+
+// c16FailCode: what the caller sees of errC16Fail. A direct call of the handler chain returns the error itself;
+// a transport reports it the way a gRPC server does (its status, a context error as Canceled/DeadlineExceeded,
+// anything else as Unknown).
+func c16FailCode(carrier string) codes.Code {
+	if st, ok := status.FromError(errC16Fail); ok {
+		return st.Code()
+	}
+	if carrier == "direct" || carrier == "registry" {
+		return status.Code(errC16Fail)
+	}
+	return status.FromContextError(errC16Fail).Code()
+}
 
 func (l c16Layer) unaryInt(log *c16log, seen *[]observed) grpc.UnaryServerInterceptor {
 	if !l.unary {
@@ -311,6 +336,7 @@ func checkC16(e *core.Env) {
 		if r.Intn(2) == 0 {
 			all[r.Intn(len(all))].beh = pick(r, bShort, bFail, bRewrite)
 		}
+		errC16Fail = c16FailErrs[r.Intn(len(c16FailErrs))]
 		if r.Intn(6) == 0 {
 			svc.retErr = status.Error(codes.DataLoss, "handler error")
 		}
@@ -536,7 +562,7 @@ func checkC16(e *core.Env) {
 				case bShort:
 					wantPayload, wantCode = "short:"+winner.name, codes.OK
 				case bFail:
-					wantCode = codes.PermissionDenied
+					wantCode = c16FailCode(carrier)
 				case bRewrite:
 					wantPayload, wantCode = "rewritten:"+winner.name, codes.OK
 				}
@@ -719,7 +745,7 @@ func checkC16(e *core.Env) {
 				case bShort:
 					wantCode, wantMsg = codes.OK, false
 				case bFail:
-					wantCode, wantMsg = codes.PermissionDenied, false
+					wantCode, wantMsg = c16FailCode(carrier), false
 				case bRewrite:
 					wantCode = codes.Aborted
 				}
